@@ -9,6 +9,7 @@ import (
 	"os/exec"
 	"path/filepath"
 	"reflect"
+	"sort"
 	"strings"
 	"sync"
 	"time"
@@ -44,6 +45,8 @@ type descView struct {
 	Exists bool            `json:"exists"`
 	Err    string          `json:"err,omitempty"` // any error other than "does not exist"
 	Desc   json.RawMessage `json:"desc,omitempty"`
+	// Names: the groups a (re)started server finds in its groups directory
+	Names []string `json:"names,omitempty"`
 }
 
 func takeDescView(name string) descView {
@@ -73,6 +76,7 @@ func canonJSON(b []byte) []byte {
 }
 
 func (v descView) canon() string {
+	v.Names = nil // the directory listing is judged separately
 	b, _ := json.Marshal(v)
 	return string(b)
 }
@@ -89,7 +93,10 @@ func descdumpMain() {
 		os.Exit(4)
 	}
 	group.Directory, group.DataDirectory = a.Dir, a.Data
-	b, _ := json.Marshal(takeDescView(a.Group))
+	v := takeDescView(a.Group)
+	v.Names, _ = group.GetDescriptionNames()
+	sort.Strings(v.Names)
+	b, _ := json.Marshal(v)
 	os.Stdout.Write(b)
 	os.Exit(0)
 }
@@ -508,6 +515,17 @@ func (e *crashEnv) runCase(c *gcase) {
 			return "unparsable", "a fresh process cannot load the definition: " + fresh.Err
 		case rerr != nil:
 			return "unparsable", "a plain reader cannot decode the file: " + rerr.Error()
+		}
+		// no group that exists neither before nor after the operation (a staging file that a
+		// restarted server takes for a definition)
+		allowed := map[string]bool{}
+		for _, n := range append(append([]string{}, oldV.Names...), newV.Names...) {
+			allowed[n] = true
+		}
+		for _, n := range fresh.Names {
+			if !allowed[n] {
+				return "partial", fmt.Sprintf("a restarted server finds a group %q in its directory that exists neither before nor after the operation (groups before %v, after %v)", n, oldV.Names, newV.Names)
+			}
 		}
 		fc := fresh.canon()
 		rawOld := present == (c.Old != nil) && reflect.DeepEqual(raw, c.Old)
